@@ -7,6 +7,7 @@ from __future__ import annotations
 
 import copy
 import json
+import os
 
 from harness import common, gfi
 from harness.common import Ctx, ask_driver
@@ -101,6 +102,9 @@ def sx_op(op):
         return f"(regen {op[1]} {sx_sel(op[2])} {gfi.show_val(op[3])})"
     if k == "proj":
         return f"(proj {sx_sel(op[1])})"
+    if k == "idx":
+        payload = sx_cmap(op[4]) if op[3] == "upd" else sx_sel(op[4])
+        return f"(idx {op[1]} {op[2]} {op[3]} {payload})"
     if k == "propose":
         return f"(propose {op[1]} {gfi.show_val(op[2])})"
     if k == "empty":
@@ -205,7 +209,7 @@ def make_case(g: G, depth, opts):
     kinds, ws = [], []
     static_addrs = _top_static_addrs(prog)
     for k, w in (("assessSelf", 1.0), ("upd", 1.0), ("regen", 1.0), ("proj", 1.0), ("gen", 0.3), ("assess", 0.5),
-                 ("propose", 0.0), ("empty", 0.0), ("subtrace", 0.0)):
+                 ("propose", 0.0), ("empty", 0.0), ("subtrace", 0.0), ("idx", 0.0)):
         w = opts.get(k, w)
         if k == "upd" and nested_switch:
             w = 0
@@ -216,6 +220,8 @@ def make_case(g: G, depth, opts):
         if k == "empty" and nested_switch:
             w = 0
         if k == "subtrace" and not static_addrs:
+            w = 0
+        if k == "idx" and not _index_editable(prog, atys):
             w = 0
         if w > 0:
             kinds.append(k)
@@ -242,6 +248,14 @@ def make_case(g: G, depth, opts):
             ops.append(["gen", s, g.constraint(universe, masked=masked), cur_args])
         elif k == "proj":
             ops.append(["proj", g.selection(universe)])
+        elif k == "idx":
+            n_el = _vec_length(prog, atys)
+            kk = r.randrange(n_el)
+            sub_univ = [q[1:] for q in universe if q and q[0] == kk]
+            if prog[0] == "scan" and r.random() < 0.3:
+                ops.append(["idx", s, kk, "regen", g.selection(sub_univ)])
+            else:
+                ops.append(["idx", s, kk, "upd", g.constraint(sub_univ, coverage=r.choice([0.0, 0.5, 1.0]))])
         elif k == "propose":
             ops.append(["propose", s, cur_args])
         elif k == "subtrace":
@@ -284,6 +298,40 @@ def make_case(g: G, depth, opts):
     return case
 
 
+def _mentions(e, k):
+    if isinstance(e, list):
+        if e and e[0] == "var":
+            return e[1] == k
+        if e and e[0] == "all":
+            return True
+        return any(_mentions(x, k) for x in e[1:])
+    return False
+
+
+def _vec_length(prog, atys):
+    if prog[0] == "vmap":
+        return next(t[1] for t, ax in zip(atys, prog[2]) if ax)
+    if prog[0] == "scan":
+        return atys[1][1] if atys[1][0] == "arr" else prog[2]
+    return 0
+
+
+def _index_editable(prog, atys):
+    """IndexRequest is modelled for a top-level vmap, and for a top-level scan whose kernel's return
+    expression does not read the carry (Scan.edit_index asserts the next iteration's return diff is
+    NoChange) and has no switch / mask inside."""
+    if prog[0] not in ("vmap", "scan") or _vec_length(prog, atys) == 0:
+        return False
+    if has_node(prog[1], SWITCHY + ("mask", "masked_iterate", "masked_iterate_final")):
+        return False
+    if prog[0] == "vmap":
+        return True
+    b = prog[1][1]
+    while b[0] == "bind":
+        b = b[4]
+    return not _mentions(b[1], 0)
+
+
 def _top_static_addrs(prog):
     """Addresses traced directly by a top-level static function (through closure / dimap wrappers)."""
     p = prog
@@ -313,6 +361,9 @@ def _prev_args(ops):
         elif op[0] == "empty":
             args = op[2]
     return args
+
+
+
 
 
 def _switch_ok_for_update(prog):
@@ -364,7 +415,9 @@ def run_cases(ctx: Ctx, cases, props, label="random", known_sig=None):
     B = max(1, min(8, len(cases) // 32 + 1))
     batches = [cases[i:i + B] for i in range(0, len(cases), B)]
     impl = []
-    for b, res in zip(batches, common.run_impl_parallel("harness.gfi_run", "impl_batch", batches)):
+    # importing jax + genjax costs ~30 s CPU per worker: do not start more workers than pay off
+    nproc = max(2, min(16, (len(cases) + 5) // 6))
+    for b, res in zip(batches, common.run_impl_parallel("harness.gfi_run", "impl_batch", batches, procs=nproc)):
         if isinstance(res, dict) and "__harness_error__" in res:
             raise common.Infra(res["__harness_error__"] + res.get("tb", ""))
         if isinstance(res, dict) and "__worker_lost__" in res:
@@ -373,7 +426,7 @@ def run_cases(ctx: Ctx, cases, props, label="random", known_sig=None):
         impl += res
     n_bad = 0
     for case, mresp, im in zip(cases, model, impl):
-        ctx.count(label)
+        ctx.count(case.get("_label", label))
         for ft in features(case):
             ctx.count(ft)
         nontrivial = any(o[0] in ("upd", "regen", "gen", "proj", "assessSelf", "assess", "bwd") for o in case["ops"])
@@ -506,14 +559,23 @@ def standard_run(ctx: Ctx, props, focus=None, opts=None, n_quick=48, n_thorough=
     for e in common.load_known(prop_id or ""):
         if "case" in e.get("replay", {}):
             corpus.append(e["replay"]["case"])
-    if corpus:
-        run_cases(ctx, corpus, props, label="corpus")
+    pending = [dict(c, _label="corpus") for c in corpus]
     g = G(ctx.rng, focus=focus, zero_len=zero_len)
     n = n_quick if ctx.tier == "quick" else n_thorough
+    if os.environ.get("VERIF_N"):        # developer override
+        n = int(os.environ["VERIF_N"])
     depth = depth_quick if ctx.tier == "quick" else depth_thorough
     done = 0
     while done < n and ctx.time_left() > 30:
         k = min(n - done, 256)
         cases = [make_case(g, ctx.rng.choice([1, depth, depth]), opts) for _ in range(k)]
-        run_cases(ctx, cases, props)
+        # drop draws whose arguments do not fit the program (an out-of-range switch index or a
+        # shape error at the first operation, as judged by the model): they are generator misses
+        first = ask_driver([f"(gfi {sx_prog(c['prog'])} ({sx_op(c['ops'][0])}))" for c in cases])
+        kept = [c for c, resp in zip(cases, first) if not (resp.startswith("((err oob") or resp.startswith("((err shape"))]
+        ctx.count("discarded-ill-fitting-arguments", len(cases) - len(kept))
+        run_cases(ctx, pending + kept, props)      # one worker pool for corpus + fresh cases
+        pending = []
         done += k
+    if pending:
+        run_cases(ctx, pending, props)
